@@ -220,3 +220,29 @@ Fixpoint spec_wire_from (seal : bytes -> bytes -> bytes -> bytes -> bytes * byte
   | c :: cs => spec_frame seal key ctr0 i c ++ spec_wire_from seal key ctr0 (S i) cs
   end.
 Definition spec_wire seal key ctr0 payload := spec_wire_from seal key ctr0 0 (chunks 1024 payload).
+
+(** the same loop returning the counter as well, and its iteration over separately delivered
+    segments (each segment is its own reader: Decrypt sees end-of-input at the end of a segment) *)
+Fixpoint decrypt_stream_c (open : bytes -> bytes -> bytes -> bytes -> bytes -> option bytes)
+         (fuel : nat) (key : bytes) (ctr : N) (inp : bytes) : bytes * rstatus * N :=
+  match fuel with
+  | O => ([], RError 99, ctr)
+  | S f =>
+    match inp with
+    | [] => ([], RClean, ctr)
+    | _ => match decrypt open key ctr inp with
+           | DErr c ctr' => ([], RError c, ctr')
+           | DOk pt ctr' rest => let '(more, st, c) := decrypt_stream_c open f key ctr' rest in (pt ++ more, st, c)
+           end
+    end
+  end.
+Fixpoint decrypt_segments (open : bytes -> bytes -> bytes -> bytes -> bytes -> option bytes)
+         (key : bytes) (ctr : N) (segs : list bytes) : bytes * rstatus :=
+  match segs with
+  | [] => ([], RClean)
+  | sg :: rest =>
+    match decrypt_stream_c open (S (length sg)) key ctr sg with
+    | (out, RClean, c) => let '(more, st) := decrypt_segments open key c rest in (out ++ more, st)
+    | (out, st, _) => (out, st)
+    end
+  end.
